@@ -163,6 +163,25 @@ func c13(r *rep.Run) {
 			}
 		}
 	}
+	// long list literals (an optimiser may represent them differently)
+	for _, k := range []int{4, 15, 16, 17, 40, 99, 100, 120} {
+		var is, ss []string
+		var il []int64
+		var sl []string
+		for i := 0; i < k; i++ {
+			v := int64((i*37)%101 - 50)
+			is = append(is, fmt.Sprint(v))
+			il = append(il, v)
+			ss = append(ss, fmt.Sprintf("\"e %d\"", i))
+			sl = append(sl, fmt.Sprintf("e %d", i))
+		}
+		cases = append(cases,
+			&c13case{src: "(in n (" + strings.Join(is, " ") + "))", vars: iv, binds: [][]interface{}{{int64(-50), []int64{1}}, {int64(999), []int64{}}}, what: fmt.Sprintf("int list of %d", k)},
+			&c13case{src: "(and (overlap li (" + strings.Join(is, " ") + ")) (in n KIL))", consts: map[string]interface{}{"KIL": il}, vars: iv, binds: [][]interface{}{{int64(-50), []int64{-50}}, {int64(999), []int64{999}}}, what: fmt.Sprintf("int list of %d", k)},
+			&c13case{src: "(in s (" + strings.Join(ss, " ") + "))", vars: sv, binds: [][]interface{}{{"e 3", true, []string{}}, {"zz", true, []string{}}}, what: fmt.Sprintf("string list of %d", k)},
+			&c13case{src: "(or (overlap ls (" + strings.Join(ss, " ") + ")) (in s KLL))", consts: map[string]interface{}{"KLL": sl}, vars: sv, binds: [][]interface{}{{"e 3", true, []string{"e 2"}}, {"zz", true, []string{"q"}}}, what: fmt.Sprintf("string list of %d", k)},
+		)
+	}
 	r.Cov["literal_cases"] = len(cases)
 	hs := harnesses(r.Workers)
 	opts := optMatrix(0, 1, 2)
